@@ -30,6 +30,7 @@ Inductive op :=
 | OStack (name : option string) (kk : kind) (keys : list label) (al sort : bool)
 | OConcat (r : axref) (al sort : bool)
 | OSortAxis (r : axref)
+| OSortAxisKey (r : axref) (keys : list label)   (* sort_axis(axis, key=f): keys = f applied to the labels, stable *)
 | OBroadcastArrays
 | OReduce (f : redfn) (skipna : bool) (ax : axarg)
 | OCum (prod skipna : bool) (r : axref)
@@ -82,6 +83,10 @@ Definition apply_op (ins : list darr) (o : op) (a : darr) : res value :=
   | OStack n kk keys al srt => let! r := stack ins n kk keys al srt in Ok (VArr r)
   | OConcat r al srt => let! x := concatenate ins r al srt in Ok (VArr x)
   | OSortAxis r => arr1 (sort_axis r) a
+  | OSortAxisKey r keys =>
+      let! i := axis_info a r in
+      if negb (List.length keys =? alen (nth i (axes a) dax0)) then Err OtherError
+      else Ok (VArr (take_axis_pos (argsort keys) i a))
   | OBroadcastArrays => let! l := broadcast_arrays ins in Ok (VArrs l)
   | OReduce f sk ax => reduce_any f sk ax a
   | OCum p sk r => arr1 (cumulative p sk r) a
